@@ -164,7 +164,15 @@ def stream_bytes(rec, table, nbase, per, tag="bytes"):
     r = rng("parse-bytes")
     g = gen_scripts.Gen(table, r)
     texts, metas = [], []
-    for t in CORPUS:
+    witnesses = []
+    try:
+        for f in json.load(open(os.path.join(VERIF, "known_findings.json")))["findings"]:
+            w = (f.get("witness") or {}).get("script")
+            if w:
+                witnesses.append(w.encode("utf-8"))
+    except Exception:  # noqa
+        pass
+    for t in CORPUS + witnesses:
         texts.append(t)
         metas.append({"stream": "corpus"})
     for i in range(nbase):
